@@ -57,12 +57,22 @@ type c19rSet struct {
 	conn      int
 }
 
+// c19rSecret: a key-agreement secret (or, for b, its public image g_b) as it arrived at the server, and how many bytes
+// the OS random source had delivered to the process by then (used by c19.fault, c19fault.go)
+type c19rSecret struct {
+	kind string // nonce | new_nonce | g_b
+	val  []byte
+	read int64
+}
+
 type c19rServer struct {
 	ln     net.Listener
 	script []string
 	a      *big.Int
 	sn     []byte
 	ctr    *c19CountingReader
+
+	secrets []c19rSecret
 
 	mu     sync.Mutex
 	sets   []c19rSet
@@ -131,6 +141,9 @@ func (s *c19rServer) serve(c net.Conn, connNo int) {
 				return
 			}
 			stage = 1
+			s.mu.Lock()
+			s.secrets = append(s.secrets, c19rSecret{"nonce", nonce, readNow})
+			s.mu.Unlock()
 			pq := new(big.Int).Mul(big.NewInt(c19rP), big.NewInt(c19rQ)).Bytes()
 			s.sendPlain(c, hsResPQ(nonce, s.sn, pq, []uint64{hsFingerprint(&c19rKey.PublicKey)}))
 		case id == hsIDReqDH && stage == 1:
@@ -160,6 +173,9 @@ func (s *c19rServer) serve(c net.Conn, connNo int) {
 				return
 			}
 			stage = 2
+			s.mu.Lock()
+			s.secrets = append(s.secrets, c19rSecret{"new_nonce", newNonce, readNow})
+			s.mu.Unlock()
 			gA := new(big.Int).Exp(big.NewInt(3), s.a, prime)
 			answer := hsInnerData(nonce, s.sn, 3, hsFixed(prime, 256), hsFixed(gA, 256), int32(time.Now().Unix()))
 			// the mark is taken BEFORE the answer leaves: what the client draws on receiving it counts
@@ -188,6 +204,7 @@ func (s *c19rServer) serve(c net.Conn, connNo int) {
 			}
 			s.mu.Lock()
 			s.sets = append(s.sets, c19rSet{gb: gb, retryID: retry, readSince: readNow - mark, conn: connNo})
+			s.secrets = append(s.secrets, c19rSecret{"g_b", hsFixed(gb, 256), readNow})
 			step := len(s.sets)
 			s.mu.Unlock()
 			answer := "ok"
@@ -232,20 +249,45 @@ func c19Retry(op, script string, k uint64) string {
 	if !ok {
 		return "bad-op"
 	}
+	srv, end, fail := c19rExchange(steps, k, nil)
+	if fail != "" {
+		return fail
+	}
+	srv.mu.Lock()
+	sets := append([]c19rSet{}, srv.sets...)
+	notes := append([]string{}, srv.notes...)
+	srv.mu.Unlock()
+	c19rStats[fmt.Sprintf("%s: %d set_client_DH_params, exchange %s", script, len(sets), end)]++
+	if theG != nil {
+		theG.Extra["retry_exchanges"] = c19rStats
+	}
+	if end == "panic" {
+		return "panic:CreateConnection"
+	}
+	return c19rJudgeSets(op, steps, sets, notes)
+}
+
+// c19rExchange: one real key exchange (NewMTProto + CreateConnection) against the scripted server. crypto/rand.Reader
+// is the counting forwarder over `source` (nil: the OS reader itself) for the duration of the exchange. end =
+// completed | gave-up | panic | no-return; fail != "": the experiment could not be set up.
+func c19rExchange(steps []string, k uint64, source io.Reader) (srv *c19rServer, end string, fail string) {
 	c19rKeyOnce.Do(func() { c19rKey, _ = rsa.GenerateKey(crand.Reader, 2048) })
 	if c19rKey == nil {
-		return "error:no-server-key"
+		return nil, "", "error:no-server-key"
 	}
 	ln, err := net.Listen("tcp", "127.0.0.1:0")
 	if err != nil {
-		return "error:listen"
+		return nil, "", "error:listen"
 	}
 	r := NewRand(k*0x9E3779B97F4A7C15 + 19)
 	a := new(big.Int).SetBytes(r.Bytes(256))
 	a.SetBit(a, 2047, 1)
 	orig := crand.Reader
-	ctr := &c19CountingReader{inner: orig}
-	srv := &c19rServer{ln: ln, script: steps, a: a, sn: r.Bytes(16), ctr: ctr}
+	if source == nil {
+		source = orig
+	}
+	ctr := &c19CountingReader{inner: source}
+	srv = &c19rServer{ln: ln, script: steps, a: a, sn: r.Bytes(16), ctr: ctr}
 	go func() {
 		for {
 			c, err := ln.Accept()
@@ -262,7 +304,7 @@ func c19Retry(op, script string, k uint64) string {
 	m, err := mtproto.NewMTProto(mtproto.Config{SessionStorage: c19MemStore{}, ServerHost: ln.Addr().String(), PublicKey: &c19rKey.PublicKey})
 	if err != nil {
 		_ = ln.Close()
-		return "error:NewMTProto"
+		return nil, "", "error:NewMTProto"
 	}
 	crand.Reader = ctr
 	done := make(chan string, 1)
@@ -278,7 +320,7 @@ func c19Retry(op, script string, k uint64) string {
 		}
 		done <- "completed"
 	}()
-	end := "no-return"
+	end = "no-return"
 	select {
 	case end = <-done:
 	case <-time.After(6 * time.Second):
@@ -293,17 +335,10 @@ func c19Retry(op, script string, k uint64) string {
 	case <-time.After(time.Second):
 	}
 	_ = ln.Close()
-	srv.mu.Lock()
-	sets := append([]c19rSet{}, srv.sets...)
-	notes := append([]string{}, srv.notes...)
-	srv.mu.Unlock()
-	c19rStats[fmt.Sprintf("%s: %d set_client_DH_params, exchange %s", script, len(sets), end)]++
-	if theG != nil {
-		theG.Extra["retry_exchanges"] = c19rStats
-	}
-	if end == "panic" {
-		return "panic:CreateConnection"
-	}
+	return srv, end, ""
+}
+
+func c19rJudgeSets(op string, steps []string, sets []c19rSet, notes []string) string {
 	if len(sets) == 0 {
 		return "error:no-set_client_DH_params(" + strings.ReplaceAll(strings.Join(notes, ";"), " ", "_") + ")"
 	}
